@@ -99,6 +99,7 @@ def run(S):
     S.witness('C17.a.witness', E, pre + [addressed_has, cap_some], ok)
     node_announcements(S, D)
     pruning_step(S, D)
+    announcement_signatures(S, D)
 
 
 def node_announcements(S, D):
@@ -221,3 +222,93 @@ def pruning_step(S, D):
     S.no_panic('C17.c.nopanic', E, [], 'the loop body is total', [b])
     S.witness('C17.c.witness', E, [], z3.And(cg, pre12, pre21, z3.Not(post12), post21, z3.Not(removal)))
     S.validate('C17.c.validate', E, b, n=60 if S.tier == 'quick' else 300)
+
+
+def announcement_signatures(S, D):
+    """C17.d: routing::gossip::verify_channel_announcement - a channel_announcement is authentic only if each of its four
+    signatures verifies under the key it belongs to (node 1, node 2, bitcoin key 1, bitcoin key 2). Whole function;
+    SHA-256d, key parsing and secp256k1 verification are stubs; a verification's outcome is a free boolean per
+    (signature field, key field) pair."""
+    ids = ['C17.d.all_four_signatures', 'C17.d.nopanic', 'C17.d.witness', 'C17.d.validate']
+    if all(S._skip(o) for o in ids):
+        return
+    f = S.fn('verify_channel_announcement')
+    E = S.engine(unwind=6)
+    mem = {}
+    msg = E.sym('msg', f.params[0][1], mem)
+    CA = D.struct_fields('ChannelAnnouncement')
+    UA = D.struct_fields('UnsignedChannelAnnouncement')
+    sig_names = ['node_signature_1', 'node_signature_2', 'bitcoin_signature_1', 'bitcoin_signature_2']
+    key_names = ['node_id_1', 'node_id_2', 'bitcoin_key_1', 'bitcoin_key_2']
+    sig_idx = {CA.index(nm): k for k, nm in enumerate(sig_names)}
+    key_idx = {UA.index(nm): k for k, nm in enumerate(key_names)}
+    contents_idx = CA.index('contents')
+    checks = []       # (guard, sig k, key k, outcome)
+    valid = {}
+
+    def field_of(v, table, inner=None):
+        """which of the named fields of the message a reference points to"""
+        seen = 0
+        while isinstance(v, X.Ref) and seen < 8:
+            fs = [st[1] for st in v.path if st[0] == 'f']
+            if v.cell == msg.cell and fs:
+                if inner is None and fs[-1] in table and len(fs) == 1:
+                    return table[fs[-1]]
+                if inner is not None and len(fs) >= 2 and fs[0] == inner and fs[1] in table:
+                    return table[fs[1]]
+            v = E.read_path(mem_cur[0][v.cell], v.path, mem_cur[0], True, 'sig')
+            seen += 1
+        return getattr(v, 'base', None)
+    mem_cur = [mem]
+
+    def h_as_slice(E_, m, func, argv, guard, mem_, dty, caller):
+        mem_cur[0] = mem_
+        k = field_of(argv[0], key_idx, inner=contents_idx)
+        return X.Adt('slice', {}, base='keybytes.%s' % k)
+
+    def h_from_slice(E_, m, func, argv, guard, mem_, dty, caller):
+        b = getattr(argv[0], 'base', '') or ''
+        k = b.split('.')[-1]
+        parse_ok = z3.Bool('env.key%s_parses' % k)
+        return X.En('Result', z3.If(parse_ok, 0, 1), {0: [X.Adt('PublicKey', {}, base='pubkey.%s' % k)], 1: [X.Opaque('secp error')]})
+
+    def h_verify(E_, m, func, argv, guard, mem_, dty, caller):
+        mem_cur[0] = mem_
+        sk = field_of(argv[2], sig_idx)
+        kv = argv[3]
+        while isinstance(kv, X.Ref):
+            kv = E.read_path(mem_[kv.cell], kv.path, mem_, True, 'key')
+        kk = (getattr(kv, 'base', '') or '').split('.')[-1]
+        name = 'env.sig%s_verifies_under_key%s' % (sk, kk)
+        valid.setdefault((sk, kk), z3.Bool(name))
+        checks.append((X.zbool(guard), sk, kk, valid[(sk, kk)]))
+        return X.En('Result', z3.If(valid[(sk, kk)], 0, 1), {0: [X.UNIT], 1: [X.Opaque('secp error')]})
+    for rx, h in [
+        (r'message_sha256d_hash::<', lambda *a: X.Opaque('hash')),
+        (r'Message::from_digest\w*$', lambda *a: X.En('Result', 0, {0: [X.Opaque('digest')]})),
+        (r'NodeId::as_slice$', h_as_slice),
+        (r'PublicKey::from_slice$', h_from_slice),
+        (r'verify_ecdsa$', h_verify),
+        (r'^format$|^must_use::<|ChannelId::new_zero$|Index<RangeFull>>::index$', lambda *a: X.Opaque('fmt')),
+    ]:
+        E.models.insert(0, (re.compile(rx), h))
+    rv = S.call(E, f, [msg, X.Opaque('secp context')], mem)
+    ok = z3.And(S.ret_guard, X.zint(rv.d) == 0)
+    panic = z3.Or(*[X.zbool(p[0]) for p in E.panics]) if E.panics else False
+
+    def checked_ok(k):
+        c = [z3.And(g, v) for g, sk, kk, v in checks if sk == k and kk == str(k)]
+        return z3.Or(*c) if c else z3.BoolVal(False)
+    diag = [valid.get((k, str(k)), z3.BoolVal(False)) for k in range(4)]
+    off = [v for (sk, kk), v in valid.items() if str(sk) != kk]
+    parses = [z3.Bool('env.key%d_parses' % k) for k in range(4)]
+    # live replay: real keys and signatures; a signature made by one key never verifies under another, keys always parse
+    live = z3.And(*(parses + [z3.Not(v) for v in off]))
+    b = Binding('channel_announcement_sig_probe', [z3.If(d, 1, 0) for d in diag] + [z3.If(live, 1, 0)], [z3.If(ok, 1, 0)],
+                line_fn=lambda v: ' '.join(str(x) for x in v[:4]), which='oracle', panic=panic, via_solver=True, domain=[(0, 1)] * 4 + [(1, 1)])
+    S.prove(ids[0], E, [], z3.Implies(ok, z3.And(*[checked_ok(k) for k in range(4)])),
+            'a channel_announcement passes only if all four signatures were verified, each against its own key - node_signature_1/2 under node_id_1/2 and bitcoin_signature_1/2 under bitcoin_key_1/2 - and every one of them is valid',
+            [b], bounds='all outcomes of the (stubbed) key parsing and signature verifications')
+    S.no_panic(ids[1], E, [], 'total', [b])
+    S.witness(ids[2], E, [], ok)
+    S.validate(ids[3], E, b, n=4, extra_vectors=[(1, 1, 1, 1, 1), (0, 1, 1, 1, 1), (1, 0, 1, 1, 1), (1, 1, 0, 1, 1), (1, 1, 1, 0, 1)])
